@@ -48,6 +48,15 @@ PROPS = {
         "level_note": _TB + "Modelled not verified: inverse k=1 path, fan fill and post-removal flip repair (Env.unguarded). Two genuine defects are recorded as known findings F8a/F8b (known_findings.json) and reported as KNOWN-FINDING, any other violation is reported.",
         "technique": "Lean 4 proof of the transactional removal wrapper and vertex bookkeeping + independent recomputation of every state after remove_vertex",
     },
+    "C08": {
+        "lean_modules": ["DelaunayModel.Props.C08", "DelaunayModel.Props.C07"],
+        "required_theorems": ["DM.C08.repair_ok_gated", "DM.C08.repair_err_unchanged", "DM.C08.advanced_ok_gated", "DM.C08.advanced_err_unchanged",
+                              "DM.C08.repair_inadmissible_untouched", "DM.C08.admissible_table", "DM.C08.repair_decision_table",
+                              "DM.C08.shouldRunRepair_iff", "DM.C08.rebuild_bounded", "DM.C07.flip_vertex_set"],
+        "level_text": "Theorems (Lean kernel), for EVERY flip scheduler and rebuild behaviour (parameters): both repair entry points return Ok only for a state the postcondition verifier accepted, every Err leaves the pre-repair state, the admissibility gate returns InvalidTopology without touching the state, automatic repair proceeds iff the policy is due and the operation admissible (never with Never, D<2, or no cells), the heuristic rebuild makes at most its budgeted number of attempts and accepts a candidate only after a successful final repair; flips with 2<=k<=D keep the vertex set (C07). Correspondence (K3): valid triangulations pushed away from Delaunay by 1..50 random legal flips are repaired through both entry points (all guarantees, D=2..5); on Ok the vertex identities must be unchanged (coordinates bit-identical or within the documented perturbation after a heuristic rebuild), L1-L3 recomputed, exact empty-sphere oracle, convexity, and in general position equality with the brute-force Delaunay set.",
+        "level_note": _TB + "Modelled not verified: the flip scheduler (queues, budgets, cycle detection) and the rebuild insertion. Convergence is not a theorem. Facet flips are admissible under Pseudomanifold per the code and its unit tests (docs/workflows.md says the opposite: recorded as a documentation discrepancy, not a violation).",
+        "technique": "Lean 4 proof of the repair control structure (gate, rollback, admissibility, budget) over an arbitrary flip scheduler + exact-oracle judgement of every real repair result",
+    },
     "C04": {
         "lean_modules": ["DelaunayModel.Props.C04"],
         "required_theorems": ["DM.C04.emptySphere_iff", "DM.C04.k2_symmetric", "DM.C04.k2_both_positive",
